@@ -116,6 +116,7 @@ func init() {
 	models["(*bytes.Buffer).String"] = models["(*strings.Builder).String"]
 	models["(*bytes.Buffer).Len"] = models["(*strings.Builder).Len"]
 	models["(*bytes.Buffer).Reset"] = models["(*strings.Builder).Reset"]
+	models["(*bytes.Buffer).Grow"] = models["(*strings.Builder).Grow"]
 	models["(*bytes.Buffer).Write"] = func(p *Path, fn *ssa.Function, a []Value) Value {
 		b := p.buf(a[0])
 		sl := a[1].(Slice)
